@@ -30,6 +30,8 @@ class Contract:
         self.locals = kw.pop("locals", {})          # local name -> type tag (hints)
         self.cover = kw.pop("cover", True)
         self.total = kw.pop("total", False)         # shape __getattr__: every method name exists
+        self.value = kw.pop("value", None)       # the result IS this spec expression (functional contract): no fresh result symbol
+        self.optional = kw.pop("optional", False)  # shape method present only as a capability has(obj, name)
         self.field_tags = kw.pop("field_tags", {})  # field name -> tag, overriding the class table for this target only
         self.only_paths = kw.pop("only_paths", None)
         if kw:
@@ -45,6 +47,7 @@ class Registry:
         self.functions = {}      # spec function name -> (arg sorts, result sort)
         self.axioms = []         # (name, vars {name: sort}, expr)
         self.link_axioms = set()
+        self.axiom_patterns = {}
         self.inline_closure_args = set()   # targets executed inline (contract not used) when a local closure is passed to them
         self.lemmas = []         # (name, props, vars, assumes, goal)
         self.defs = {}           # spec macro name -> (params, expr)
@@ -78,11 +81,13 @@ class Registry:
     def function(self, name, args, result):
         self.functions[name] = (list(args), result)
 
-    def axiom(self, name, vars, expr, link=False):
+    def axiom(self, name, vars, expr, link=False, patterns=None):
         """link=True: an axiom relating two definitions; it joins a problem only when ALL the functions it mentions occur there"""
         self.axioms.append((name, dict(vars), expr))
         if link:
             self.link_axioms.add(name)
+        if patterns:
+            self.axiom_patterns[name] = list(patterns)   # instantiation triggers (spec expressions over the axiom's variables)
 
     def lemma(self, name, props, vars, assumes, goal, induction=None, background=True):
         self.lemmas.append(dict(name=name, props=list(props), vars=dict(vars), assumes=list(assumes), goal=goal, induction=induction,
